@@ -255,10 +255,17 @@ func (m *Mod) renderPkg(i int, out map[string]string) {
 		if p.RecvMix {
 			extra = "\n// SetX is declared in the test file with another receiver name.\nfunc (x *T) SetX(v int) { x.x = v }\n"
 		}
+		// Clamp: an exported, pure function that exists only in the test
+		// variant of the package; the external test package drops its result
+		extra += "\n// Clamp is pure and lives in the test variant only.\nfunc Clamp(a int) int { return a + 1 }\n"
 		out[name+"/"+name+"_test.go"] = fmt.Sprintf("package %s\n\n// CheckHelper uses helper.\nfunc CheckHelper() int { return helper() }\n\nfunc testOnlyUnused() int { return %d }\n%s", name, 1+p.TestBody, extra)
 	}
 	if p.XTest {
-		out[name+"/x_test.go"] = fmt.Sprintf("package %s_test\n\nimport %q\n\n// CheckF uses F.\nfunc CheckF() int { return %s.F() }\n", name, m.Path+"/"+name, name)
+		clamp := ""
+		if p.Test {
+			clamp = fmt.Sprintf("\n// CheckClamp drops the result of a pure function of the test variant.\nfunc CheckClamp() {\n\t%s.Clamp(1)\n}\n", name)
+		}
+		out[name+"/x_test.go"] = fmt.Sprintf("package %s_test\n\nimport %q\n\n// CheckF uses F.\nfunc CheckF() int { return %s.F() }\n%s", name, m.Path+"/"+name, name, clamp)
 	}
 	if p.TagFile {
 		out[name+"/extra.go"] = fmt.Sprintf("//go:build extra\n\npackage %s\n\n// Extra exists only with the extra tag.\nfunc Extra() int {\n\ty := helper()\n\ty = y\n\treturn y\n}\n", name)
@@ -498,7 +505,7 @@ func Generate(r *Rng, npkg int, shape string, tests bool) *Mod {
 				}
 			}
 		}
-		if r.P(250) {
+		if r.P(400) {
 			p.Conf = Confs[r.N(len(Confs))]
 		}
 		m.Pkgs = append(m.Pkgs, p)
